@@ -7,7 +7,7 @@ MANIFEST = dict(
     category="proof",
     text="Contracts on the real opn2_setNumChips, opn2_switchEmulator, opn2_setDeviceIdentifier and opn2_setVolumeRangeModel (+ OPN2::setVolumeScaleModel) bodies (extracted on every run), for every argument value and a NULL or valid device: a failing call leaves every field of the setup, the device id, the synth's chip count untouched, triggers no chip rebuild and (for a valid device) leaves an error text; a succeeding call stores exactly the value given and is accepted exactly for the documented range; the volume model setter maps explicit models one-to-one and AUTO to the loaded bank's own model.",
     design_ref="DESIGN.md C18",
-    level_note="Failure side: the setters that can fail. Success side: setter followed by its real getter for LFO enable/frequency, channel allocation mode, auto arpeggio, volume model, chip count, and the stored/in-force flags for modulator scaling, soft panning, full-range brightness. Not covered: chip type (goes through applySetup), persistence across applySetup/partialReset/resetMIDI and file loads, the per-bank overrides, rejected bank/music files. Assumed: partialReset (counted), OPN2::setupLocked, opn2_isEmulatorAvailable (only ids inside the enum are available - the property of fix 46ab746), setErrorString (counted).",
+    level_note="Failure side: the setters that can fail. Success side: setter followed by its real getter for LFO enable/frequency, channel allocation mode, auto arpeggio, volume model, chip count, and the stored/in-force flags for modulator scaling, soft panning, full-range brightness. Re-application: OPNMIDIplay::applySetup (range up to the chip rebuild) makes every live synth setting the documented function of the stored setup and the bank's own values and touches neither the stored setup nor hooks nor device id. Not covered: the getters opn2_getChipType/opn2_getEmulator, persistence across applySetup/partialReset/resetMIDI and file loads, the per-bank overrides, rejected bank/music files. Assumed: partialReset (counted), OPN2::setupLocked, opn2_isEmulatorAvailable (only ids inside the enum are available - the property of fix 46ab746), setErrorString (counted).",
     technique="CBMC code contracts (DFCC) on mechanically extracted C API functions")
 TRUSTED = ["extraction rules of vlib/cxx2c.py", "harness/env_play.h", "assumed contracts: partialReset, OPN2::setupLocked, opn2_isEmulatorAvailable, setErrorString"]
 ASSUMPTIONS = []
@@ -37,6 +37,11 @@ SPECS += [
 ]
 
 
+SPECS += [dict(file="src/opnmidi_midiplay.cpp", name="OPNMIDIplay::applySetup", cls="OPNMIDIplay", rename="applySetup_prefix", must=["R10", "R3", "R12", "R2"],
+               cut_at=r"\n[ \t]*synth\.reset\(m_setup\.emulator", epilogue="    g_apply.chipType = chipType; g_apply.reached = true;",
+               post=[(r"synth\.setVolumeScaleModel\(", "setVolumeScaleModel(")])]
+
+
 def _extract(wd):
     return extract_play.emit(wd, SPECS)
 
@@ -57,6 +62,8 @@ def groups(tier):
     return [Group("api_" + n, "harness/api_h.c", "h_" + n, enforce=n, replace=REPL, extract=_extract, object_bits=9,
                   required=[r"postcondition", r"assigns"], funcs=[n], timeout=600)
             for n in ("opn2_setNumChips", "opn2_switchEmulator", "opn2_setDeviceIdentifier", "opn2_setVolumeRangeModel")] + \
+           [Group("applySetup_prefix_contract", "harness/api_h.c", "h_applySetup_prefix", enforce="applySetup_prefix", extract=_extract, object_bits=9,
+                  required=[r"postcondition", r"assigns"], funcs=["OPNMIDIplay::applySetup (range up to the chip rebuild)", "OPN2::setVolumeScaleModel"], timeout=600)] + \
            [Group("pair_" + n, "harness/api_h.c", "h_pair_" + n, replace=REPL + ["commitLFOSetup"], extract=_extract, object_bits=9, required=[r"PAIR"],
                   funcs=fs, timeout=600, note="setter followed by its getter, both real bodies; lemma harness")
             for n, fs in (("lfoEnabled", ["opn2_setLfoEnabled", "opn2_getLfoEnabled"]), ("lfoFrequency", ["opn2_setLfoFrequency", "opn2_getLfoFrequency"]),
